@@ -8,6 +8,8 @@ package main
 //   (call <recv> x<member> <arg>…)      method call
 //   (field <recv> x<member>)            field access
 //   (index <recv> <index>)              IndexValue
+//   (seq <recv> (x<member> <arg>…)…)    method calls one after the other on the same receiver; answers
+//                                       with the first non-OK step or the last step, plus step=<n>
 // Values:  null | none | (int n) | (float <bits as decimal>) | (bool true|false) | (str x<hex>)
 //          | (range a b true|false) | (list v…) | (some v) | (anyobj (x<key> v)…) | (obj (x<key> v)…)
 // Output:  VM=<res> | TREE=<res>   with <res> one of
@@ -345,6 +347,32 @@ func vmSide(sx *Sx) (res string) {
 			return vmInterrupt(i, recv)
 		}
 		return okLine(ret)
+	case "seq":
+		last := "OK kind=nil ret=nil recv=" + dumpVM(recv, 0).String() + " disp=x rdisp=x"
+		for n, step := range sx.List[2:] {
+			fields, i := (*recv).Fields()
+			if i != nil {
+				return vmInterrupt(i, recv) + fmt.Sprintf(" step=%d", n)
+			}
+			member, found := fields[step.List[0].Str()]
+			if !found {
+				return fmt.Sprintf("MISSING step=%d", n)
+			}
+			fn, isFn := (*member).(value.ValueBuiltinFunction)
+			if !isFn {
+				return fmt.Sprintf("NOTFN kind=%s step=%d", (*member).Kind().String(), n)
+			}
+			args := []value.Value{}
+			for _, a := range step.List[1:] {
+				args = append(args, *buildVM(a))
+			}
+			ret, i := fn.Callback(nil, &ctx, mcSpan, args...)
+			if i != nil {
+				return vmInterrupt(i, recv) + fmt.Sprintf(" step=%d", n)
+			}
+			last = okLine(ret) + fmt.Sprintf(" step=%d", n)
+		}
+		return last
 	case "field", "call":
 		fields, i := (*recv).Fields()
 		if i != nil {
@@ -398,6 +426,32 @@ func treeSide(sx *Sx) (res string) {
 			return treeInterrupt(i, recv)
 		}
 		return okLine(ret)
+	case "seq":
+		last := "OK kind=nil ret=nil recv=" + dumpTree(recv, 0).String() + " disp=x rdisp=x"
+		for n, step := range sx.List[2:] {
+			fields, i := (*recv).Fields()
+			if i != nil {
+				return treeInterrupt(i, recv) + fmt.Sprintf(" step=%d", n)
+			}
+			member, found := fields[step.List[0].Str()]
+			if !found {
+				return fmt.Sprintf("MISSING step=%d", n)
+			}
+			fn, isFn := (*member).(ivalue.ValueBuiltinFunction)
+			if !isFn {
+				return fmt.Sprintf("NOTFN kind=%s step=%d", (*member).Kind().String(), n)
+			}
+			args := []ivalue.Value{}
+			for _, a := range step.List[1:] {
+				args = append(args, *buildTree(a))
+			}
+			ret, i := fn.Callback(nil, &ctx, mcSpan, args...)
+			if i != nil {
+				return treeInterrupt(i, recv) + fmt.Sprintf(" step=%d", n)
+			}
+			last = okLine(ret) + fmt.Sprintf(" step=%d", n)
+		}
+		return last
 	case "field", "call":
 		fields, i := (*recv).Fields()
 		if i != nil {
